@@ -104,6 +104,9 @@ def cases(tier, seed, flavour):
                 chunk = 729 if flavour != 'asan' else 81       # asan: ~5 ms per evaluation, keep cases short
                 for lo in range(0, tot, chunk):
                     yield {'part': 'sparse', 'tc': tc, 'm': m, 'n': n, 'lo': lo, 'hi': min(tot, lo + chunk), 'seed': s}
+    if flavour != 'asan':
+        for tc in 'idz':
+            yield {'part': 'file-large', 'tc': tc}
     for tc in 'dz':
         yield {'part': 'sparse-inplace', 'tc': tc}
         yield {'part': 'sparse-huge', 'tc': tc}
@@ -316,6 +319,8 @@ def run(case):
             _run_sparse(case, c)
         elif part == 'sparse-inplace':
             _run_sparse_inplace(case, c)
+        elif part == 'file-large':
+            _run_file_large(case, c)
         elif part == 'sparse-huge':
             _run_sparse_huge(case, c)
         elif part == 'imp-sparse':
@@ -801,6 +806,53 @@ def _run_file(case, c):
     finally:
         if os.path.exists(path):
             os.unlink(path)
+
+
+def _run_file_large(case, c):
+    """tofile / fromfile of matrices beyond the usual I/O block sizes (2^16 and 2^20 elements +- a few): every element,
+    compared through the raw bytes of the buffer"""
+    import io
+    from cvxopt import matrix
+    tc = case['tc']
+    esz = {'i': 8, 'd': 8, 'z': 16}[tc]
+    for N in (2 ** 16 - 1, 2 ** 16, 2 ** 16 + 3, 70000, 2 ** 17 + 1, 2 ** 20 + 5):
+        if tc == 'i':
+            A = matrix(list(range(7, 7 + N)), (N, 1), 'i')
+        elif tc == 'd':
+            A = matrix([0.25 * k - 3.0 for k in range(N)], (N, 1), 'd')
+        else:
+            A = matrix([complex(0.5 * k, -k) for k in range(N)], (N, 1), 'z')
+        want = bytes(memoryview(A).cast('B'))
+        for how in ('file', 'bytesio'):
+            c.ev(True)
+            B = matrix(0, (N, 1), tc)
+            if how == 'file':
+                path = _tmpname('L')
+                try:
+                    with open(path, 'wb') as f:
+                        A.tofile(f)
+                    size = os.path.getsize(path)
+                    with open(path, 'rb') as f:
+                        B.fromfile(f)
+                finally:
+                    if os.path.exists(path):
+                        os.unlink(path)
+            else:
+                bio = io.BytesIO()
+                A.tofile(bio)
+                size = len(bio.getvalue())
+                bio.seek(0)
+                B.fromfile(bio)
+            got = bytes(memoryview(B).cast('B'))
+            sub = {'tc': tc, 'elements': N, 'via': how}
+            if size != N * esz:
+                c.bad('C20:file:large:%s:file-length' % tc, 'tofile wrote %d bytes for %d elements of %d bytes' % (size, N, esz), sub)
+            elif got != want:
+                k = next(i for i in range(N) if got[i * esz:(i + 1) * esz] != want[i * esz:(i + 1) * esz])
+                c.bad('C20:file:large:dense-%s:values-differ' % tc, 'tofile + fromfile of %d elements: first difference at element %d '
+                      '(wrote %r, read back %r)' % (N, k, A[k], B[k]), sub)
+            if bytes(memoryview(A).cast('B')) != want:
+                c.bad('C20:file:large:%s:source-modified' % tc, 'tofile changed the matrix', sub)
 
 
 # --------------------------------------------------------------------- sparse round trips
